@@ -102,11 +102,11 @@ func coqDL(d reporter.VerifDiffLine) string {
 }
 
 func coqPC(p memPending) string {
-	return fmt.Sprintf("{| pc_path := %s; pc_line := %s; pc_anchor_before := %s; pc_text := %s |}", coqStr(p.Path), coqZ(int64(p.Line)), coqBool(p.Before), coqStr(p.Text))
+	return fmt.Sprintf("{| pc_path := %s; pc_line := %s; pc_anchor_before := %s; pc_text := %s |}", c17Str(p.Path), coqZ(int64(p.Line)), coqBool(p.Before), c17Str(p.Text))
 }
 
 func coqEC(path string, line int, text string) string {
-	return fmt.Sprintf("{| ec_path := %s; ec_line := %s; ec_text := %s |}", coqStr(path), coqZ(int64(line)), coqStr(text))
+	return fmt.Sprintf("{| ec_path := %s; ec_line := %s; ec_text := %s |}", c17Str(path), coqZ(int64(line)), c17Str(text))
 }
 
 func coqOptZ(p *int) string {
@@ -167,7 +167,7 @@ func c17DiffCaseRun(r *rand.Rand, rep *runReport, cw *caseWriter, id int, diff, 
 		side, line := reporter.VerifGithubFix(files, rp)
 		fs := make([]string, len(files))
 		for i, f := range files {
-			fs[i] = coqPair(coqStr(f[0]), coqStr(f[1]))
+			fs[i] = coqPair(c17Str(f[0]), c17Str(f[1]))
 		}
 		var eqs []string
 		for _, e := range [][3]any{{p.Path, line, p.Text}, {p.Path, line + 1, p.Text}, {p.Path, line, "\n" + p.Text + "\n\n"}, {"x" + p.Path, line, p.Text}, {p.Path, p.Line, p.Text + "x"}} {
@@ -188,11 +188,11 @@ func c17DiffCaseRun(r *rand.Rand, rep *runReport, cw *caseWriter, id int, diff, 
 		ok, op, np, nl, ol := reporter.VerifGitlabDiscussion(rp, diffs)
 		ds := make([]string, len(diffs))
 		for i, d := range diffs {
-			ds[i] = fmt.Sprintf("{| gd_old_path := %s; gd_new_path := %s; gd_diff := %s |}", coqStr(d[0]), coqStr(d[1]), coqStr(d[2]))
+			ds[i] = fmt.Sprintf("{| gd_old_path := %s; gd_new_path := %s; gd_diff := %s |}", c17Str(d[0]), c17Str(d[1]), c17Str(d[2]))
 		}
 		pos := "None"
 		if ok {
-			pos = fmt.Sprintf("(Some {| gp_old_path := %s; gp_new_path := %s; gp_new_line := %s; gp_old_line := %s |})", coqStr(op), coqStr(np), coqOptZ(nl), coqOptZ(ol))
+			pos = fmt.Sprintf("(Some {| gp_old_path := %s; gp_new_path := %s; gp_new_line := %s; gp_old_line := %s |})", c17Str(op), c17Str(np), coqOptZ(nl), coqOptZ(ol))
 		}
 		var geqs []string
 		for _, e := range [][3]any{{p.Path, p.Line, p.Text}, {p.Path, p.Line + 1, p.Text}, {p.Path, p.Line, "\n\n" + p.Text + "\n"}, {p.Path + "x", p.Line, p.Text}, {p.Path, p.Line, "y" + p.Text}} {
@@ -214,7 +214,7 @@ func c17DiffCaseRun(r *rand.Rand, rep *runReport, cw *caseWriter, id int, diff, 
 			}
 		}
 	}
-	cw.add(fmt.Sprintf("Diff %s %s %s %s %s %s", coqN(id), coqStr(diff), coqList(ps), coqList(qs), coqList(gh), coqList(gl)))
+	cw.add(fmt.Sprintf("Diff %s %s %s %s %s %s", coqN(id), c17Str(diff), coqList(ps), coqList(qs), coqList(gh), coqList(gl)))
 	rep.count(diff, removed > 0 && added > 0)
 	rep.hist("kind=diff")
 	rep.hist("diff:" + kind)
@@ -234,4 +234,15 @@ func c17Diffs(r *rand.Rand, rep *runReport, cw *caseWriter, id, n int) int {
 		id++
 	}
 	return id
+}
+
+// c17Str: like coqStr, but text made of printable ASCII and newlines (comment bodies, diffs) is written as ONE Coq string
+// literal with raw newlines inside instead of a byte list (an order of magnitude cheaper for coqc to read).
+func c17Str(s string) string {
+	for i := 0; i < len(s); i++ {
+		if (s[i] < 0x20 && s[i] != '\n') || s[i] > 0x7e {
+			return coqStr(s)
+		}
+	}
+	return `"` + strings.ReplaceAll(s, `"`, `""`) + `"`
 }
